@@ -125,6 +125,10 @@ def universe(thorough: bool, big: bool = False) -> typing.List[TypeDef]:
         "Ivx": "uint8[<=2] data\nbool flag\ntruncated uint7 rest\n@extent 32\n",
         # ... and one that ends with such an object (nested forks, every level exactly full at maximum length)
         "Ivy": "uint8[<=2] d\nNS.Ivx.1.0 last\n@extent 88\n",
+        # padding-only inner types (nothing to decode, but bits to skip / zero): byte-sized, sub-byte, delimited
+        "Ip16": "void16\n@sealed\n",
+        "Ip3": "void3\n@sealed\n",
+        "Ipd": "void8\n@extent 64\n",
     }
     inner_deps = {"Ivy": ("Ivx",)}
     for n, body in inners.items():
@@ -143,6 +147,11 @@ def universe(thorough: bool, big: bool = False) -> typing.List[TypeDef]:
     out.append(TypeDef("N2", "L3i", "uint8 h\nNS.Ivd.1.0 m\nNS.Iud.1.0[<=2] us\n@extent 400\n", True, ("Ivd", "Iud")))
     out.append(TypeDef("L3N3", "L3", "truncated uint3 p\nNS.N2.1.0 n\nNS.N2.1.0[<=1] ns\nuint8 tail\n@sealed\n", True, ("N2",)))
     out.append(TypeDef("L3N3d", "L3", "NS.N2.1.0 n\nuint8 tail\n@extent 2000\n", True, ("N2",)))
+    # structures ALL of whose fields are composites (no primitive of their own): sealed + delimited members, one member only
+    out.append(TypeDef("L3allc", "L3", "NS.Ifs.1.0 head\nNS.Ivd.1.0 body\n@sealed\n", True, ("Ifs", "Ivd")))
+    out.append(TypeDef("L3allcd", "L3", "NS.Ifd.1.0 head\nNS.Ivd.1.0 body\nNS.Ius.1.0 u\n@extent 1200\n", True, ("Ifd", "Ivd", "Ius")))
+    out.append(TypeDef("L3onec", "L3", "NS.Ivd.1.0 only\n@sealed\n", True, ("Ivd",)))
+    out.append(TypeDef("L3onecf", "L3", "NS.Ifd.1.0 only\n@sealed\n", True, ("Ifd",)))
     # arrays with SEVERAL elements whose element type itself holds a composite (per-element nested objects must stay apart)
     out.append(TypeDef("Mid", "L3i", "NS.Ifs.1.0 i\nuint8 t\n@sealed\n", True, ("Ifs",)))
     out.append(TypeDef("Mu", "L3i", "@union\nNS.Ifs.1.0 c\nuint8 a\n@sealed\n", True, ("Ifs",)))
